@@ -1590,6 +1590,10 @@ class Machine:
                 return Int(int(f), ty)
             a = v.v
             srt = a.sort()
+            # float -> integer conversions of symbolic values: z3 rarely answers within its time limit, cvc5 does; the rest
+            # of this path is decided by cvc5 directly instead of waiting for z3 to give up on every query
+            if getattr(self, 'ctx', None) is not None:
+                self.ctx.use_cvc5 = True
             conv = z3.fpToSBV(z3.RTZ(), a, z3.BitVecSort(bits)) if signed else z3.fpToUBV(z3.RTZ(), a, z3.BitVecSort(bits))
             fhi = z3.fpToFP(z3.RNE(), z3.RealVal(hi), srt)
             flo = z3.fpToFP(z3.RNE(), z3.RealVal(lo), srt)
